@@ -3,7 +3,8 @@ C11 — the requested opset is honoured: executable legality checker (core Lean 
 
 `Schemas` is the operator table of the installed `onnx.defs` (default domain), regenerated into
 `J2O.Gen.C11.schemas` on every run: operator ↦ list of signatures (since_version, input/output
-arity bounds, deprecated?, attribute names).  `sigAt sigs v` is the signature in force at opset
+arity bounds, deprecated?, attribute names, attribute types, required attributes, admitted element
+types and type variables of inputs and outputs).  `sigAt sigs v` is the signature in force at opset
 `v` (greatest `since ≤ v`).  `opsetLegal S m` walks the whole model tree (all nested bodies, all
 function bodies) and accepts iff every default-domain node uses an operator that exists at the
 declared opset with a signature admitting the node's input/output counts and attribute names,
@@ -30,7 +31,35 @@ structure Sig where
   inVars : List Nat := []
   /-- the last formal input is variadic (homogeneous): it repeats -/
   variadic : Bool := false
+  /-- attribute name ↦ `AttributeProto.AttributeType` code declared by onnx.defs -/
+  attrTy : List (String × Nat) := []
+  /-- attributes onnx.defs marks `required` -/
+  required : List String := []
+  /-- per formal output: admitted element types (as `inTypes`) -/
+  outTypes : List (List Nat) := []
+  /-- per formal output: id of its type variable, SHARED with `inVars` (`0` = a fixed type) -/
+  outVars : List Nat := []
+  /-- the last formal output is variadic (homogeneous) -/
+  variadicOut : Bool := false
   deriving Repr, DecidableEq, Inhabited
+
+/-! A node attribute is carried as the string `name` or `name:code`, `code` being the decimal
+    `AttributeProto.AttributeType` of the attribute found in the model (FLOAT=1, INT=2, STRING=3, TENSOR=4,
+    GRAPH=5, FLOATS=6, INTS=7, STRINGS=8, …).  `attrName` / `attrKind` take the two parts (structural
+    recursion over the character list: the kernel evaluates them). -/
+
+def attrName (a : String) : String := String.ofList (a.toList.takeWhile (· ≠ ':'))
+
+def digitsVal (cs : List Char) : Nat := cs.foldl (fun acc c => acc * 10 + (c.toNat - 48)) 0
+
+def attrKind (a : String) : Option Nat :=
+  match a.toList.dropWhile (· ≠ ':') with
+  | [] => none
+  | _ :: ds => if ds.isEmpty then none else some (digitsVal ds)
+
+def lookupTy (x : String) : List (String × Nat) → Option Nat
+  | [] => none
+  | (k, t) :: rest => if k = x then some t else lookupTy x rest
 
 abbrev Schemas := List (String × List Sig)
 
@@ -58,7 +87,7 @@ def sigAdmits (s : Sig) (n : Node) : Bool :=
   !s.deprecated
     && decide (s.minIn ≤ n.ins.length) && decide (n.ins.length ≤ s.maxIn)
     && decide (s.minOut ≤ n.outsRaw.length) && decide (n.outsRaw.length ≤ s.maxOut)
-    && n.attrs.all (fun a => s.attrs.contains a)
+    && n.attrs.all (fun a => s.attrs.contains (attrName a))
 
 /-- a default-domain node is legal at opset `v` -/
 def nodeLegalB (S : Schemas) (v : Nat) (n : Node) : Bool :=
@@ -128,9 +157,42 @@ def pairsOK (s : Sig) : List (Nat × Nat) → Bool
   | [] => true
   | f :: rest => rest.all (pairOK s f) && pairsOK s rest
 
+def allowedOutAt (s : Sig) (k : Nat) : List Nat :=
+  match s.outTypes[k]? with
+  | some l => l
+  | none => if s.variadicOut then s.outTypes.getLast?.getD [] else []
+
+def varOutAt (s : Sig) (k : Nat) : Nat :=
+  match s.outVars[k]? with
+  | some v => v
+  | none => if s.variadicOut then s.outVars.getLast?.getD 0 else 0
+
+def outFactOK (s : Sig) (g : Nat × Nat) : Bool :=
+  (allowedOutAt s g.1).isEmpty || (allowedOutAt s g.1).contains g.2
+
+/-- an annotated output and an annotated input bound to one type variable have one element type -/
+def linkOK (s : Sig) (f g : Nat × Nat) : Bool :=
+  varOutAt s g.1 == 0 || varOutAt s g.1 != varAt s f.1 || f.2 == g.2
+
+/-- the attribute's type (when the node string carries it) is the one onnx.defs declares for that name -/
+def attrTypedOK (s : Sig) (a : String) : Bool :=
+  match attrKind a with
+  | none => true
+  | some k =>
+    match lookupTy (attrName a) s.attrTy with
+    | none => true            -- an unknown NAME is `nodeLegalB`'s subject
+    | some t => k == t
+
+/-- every attribute onnx.defs marks `required` is present -/
+def requiredOK (s : Sig) (n : Node) : Bool :=
+  s.required.all (fun r => n.attrs.any (fun a => attrName a == r))
+
 def sigTyped (s : Sig) (vis : List (String × Annot)) (n : Node) : Bool :=
   let facts := inputFacts s vis n.ins 0
+  let ofacts := inputFacts s vis n.outsRaw 0
   facts.all (factOK s) && pairsOK s facts
+    && ofacts.all (outFactOK s) && ofacts.all (fun g => facts.all (fun f => linkOK s f g))
+    && n.attrs.all (attrTypedOK s) && requiredOK s n
 
 /-- the declared input element types of a default-domain node satisfy the signature in force at `v` -/
 def nodeTypedB (S : Schemas) (v : Nat) (vis : List (String × Annot)) (n : Node) : Bool :=
@@ -181,9 +243,22 @@ def whyNotTyped (S : Schemas) (v : Nat) (wher : String) (vis : List (String × A
       | none => none
       | some s =>
         let facts := inputFacts s vis n.ins 0
+        let ofacts := inputFacts s vis n.outsRaw 0
         match facts.find? (fun f => !factOK s f) with
         | some f => some s!"{wher}||{n.op}|input-type input {f.1} has dtype {f.2}, not admitted by the schema since {s.since} opset={v}"
-        | none => some s!"{wher}||{n.op}|type-variable inputs {facts} bound to one type variable differ (schema since {s.since}) opset={v}"
+        | none =>
+          if !pairsOK s facts then
+            some s!"{wher}||{n.op}|type-variable inputs {facts} bound to one type variable differ (schema since {s.since}) opset={v}"
+          else match ofacts.find? (fun g => !outFactOK s g) with
+          | some g => some s!"{wher}||{n.op}|output-type output {g.1} has dtype {g.2}, not admitted by the schema since {s.since} opset={v}"
+          | none =>
+            if !ofacts.all (fun g => facts.all (fun f => linkOK s f g)) then
+              some s!"{wher}||{n.op}|type-variable outputs {ofacts} and inputs {facts} bound to one type variable differ (schema since {s.since}) opset={v}"
+            else match n.attrs.find? (fun a => !attrTypedOK s a) with
+            | some a => some s!"{wher}||{n.op}|attribute-type {a} is not the attribute type of the schema since {s.since} ({lookupTy (attrName a) s.attrTy}) opset={v}"
+            | none =>
+              let miss := s.required.filter (fun r => !n.attrs.any (fun a => attrName a == r))
+              some s!"{wher}||{n.op}|required-attribute {miss} missing (schema since {s.since}) opset={v}"
 
 def explainTypes (S : Schemas) (m : Model) : List String :=
   match importVersion "" m.imports with
@@ -227,7 +302,7 @@ def whyNot (S : Schemas) (v : Nat) (imports : List String) (funcs : List Func) (
         else if !(decide (s.minOut ≤ n.outsRaw.length) && decide (n.outsRaw.length ≤ s.maxOut)) then
           some s!"{wher}||{n.op}|output-count {n.outsRaw.length} not in {s.minOut}..{s.maxOut} (schema since {s.since}) opset={v}"
         else
-          let bad := n.attrs.filter (fun a => !s.attrs.contains a)
+          let bad := n.attrs.filter (fun a => !s.attrs.contains (attrName a))
           some s!"{wher}||{n.op}|attribute {bad} not in schema since {s.since} opset={v}"
 
 def explain (S : Schemas) (m : Model) : List String :=
